@@ -77,6 +77,21 @@ theorem C15_getstring_content (m : Mem) (addr pathMax : Nat) :
     · simp [sliceTo, clen_le, take_clen, takeWhile_pad, hk]
     · exact Nat.le_trans (List.takeWhile_sublist _).length_le (by simp)
 
+/-- **exactness (maximality)**: a C string that lies in readable memory — a NUL at offset `z` below
+PATH_MAX, no NUL before it, every byte up to it readable, wherever the page boundaries fall — is
+returned exactly: all `z` bytes, nothing more, nothing less. -/
+theorem C15_getstring_exact (m : Mem) (hP : 0 < m.P) (addr pathMax z : Nat) (hz : z < pathMax)
+    (h0 : m.byte (addr + z) = 0) (hnz : ∀ i, i < z → m.byte (addr + i) ≠ 0)
+    (hread : ∀ i, i ≤ z → m.readable (addr + i) = true) :
+    getString m addr pathMax = .ok (m.bytes addr z) := by
+  unfold getString getStringWith vmReadStr
+  have hnext : 0 < (if m.P - addr % m.P = 0 then m.P else m.P - addr % m.P) := by split <;> omega
+  obtain ⟨t', ht, hrl⟩ := readLoop_exact m addr z hP h0 hnz hread (pathMax + 1) 0 pathMax _ [] (by simp [Mem.bytes]) (by omega) (by omega) hnext (by omega)
+  simp only [hrl, Bool.false_eq_true, if_false]
+  have hle : clen (pad (m.bytes addr t') pathMax) ≤ (pad (m.bytes addr t') pathMax).length := clen_le _
+  simp only [sliceTo, hle, if_true]
+  rw [take_clen, takeWhile_pad, takeWhile_bytes m addr z t' ht h0 hnz]
+
 /-- the pinned tree's `clen` (returns len+1 without NUL) makes GetString **panic** on a
 PATH_MAX-long unterminated string: the witness that forced the `fix:` (page 4, PATH_MAX 8 scale). -/
 theorem C15_clen_witness :
